@@ -170,6 +170,26 @@ def rerun_upstream_of_items(s, i):
     return False
 
 
+def d23_region(s, i, infl):
+    """every action in flight was first reported (requested/scheduled/delayed) when the workflow
+    had already come to rest paused, and has not reported running since"""
+    st = s["replies"][i].get("state") or {}
+    for key in infl:
+        first = None
+        for j, o in enumerate(s["ops"][:i + 1]):
+            if o["op"] == "report" and (o["task"], o["route"], o.get("item")) == key and o["status"] in STARTING:
+                first = j
+        # the latest start of this action
+        if first is None or first == 0:
+            return False
+        before = (s["replies"][first - 1].get("state") or {}).get("status")
+        idx = st.get("tasks", {}).get("%s__r%s" % (key[0], key[1]))
+        rec = st["sequence"][idx] if idx is not None and idx < len(st.get("sequence", [])) else None
+        if before != "paused" or rec is None or rec["status"] not in ("requested", "scheduled", "delayed"):
+            return False
+    return True
+
+
 def region_of(s, i):
     if rearrival_region(s, i):
         return "D2"
@@ -213,7 +233,7 @@ def mon_C02(s):
                         out.append(V("succeeded with unhandled failure of %s" % t["id"], i))
         if status in ("paused", "canceled") and infl:
             out.append(V("%s with actions in flight %s" % (status, sorted(map(str, infl))), i,
-                         "D2" if rearrival_region(s, i) else None))
+                         "D2" if rearrival_region(s, i) else ("D23" if status == "paused" and d23_region(s, i, infl) else None)))
         if status in ("pausing", "canceling") and not infl and op["op"] in ("report", "req", "next"):
             out.append(V("%s with nothing in flight" % status, i, region_of(s, i)))
         # failure => failed
@@ -311,6 +331,19 @@ def mon_C04(s):
             bad = [(o["id"], o["route"]) for o in r["res"] if (o["id"], o["route"]) not in rof]
             if term != "failed" or bad:
                 out.append(V("offer after terminal status %s: %s" % (term, bad or [o["id"] for o in r["res"]]), i))
+            else:
+                # a task offered by a failed workflow is the clean-up beside a fail command that
+                # actually fired: some predecessor's completion selected `fail` together with it
+                for o in r["res"]:
+                    sx = [x for x in before["staged"] if x["id"] == o["id"] and x["route"] == o["route"]]
+                    if not sx or not sx[0]["prev"] or sx[0]["retry"] is not None:
+                        continue
+                    fired = False
+                    for _, idx in sx[0]["prev"].items():
+                        if idx < len(before["sequence"]) and any(k.startswith("fail__t") and v for k, v in before["sequence"][idx]["next"].items()):
+                            fired = True
+                    if not fired:
+                        out.append(V("failed workflow offers %s although no fail command fired beside it" % o["id"], i))
         if op["op"] == "report" and raised(r):
             out.append(V("late report raised %s in terminal status %s" % (raised(r), term), i,
                          "D5b" if raised(r) in ("KeyError", "TypeError", "IndexError") and rearrival_region(s, i) else None))
@@ -844,6 +877,11 @@ def mon_C06(s):
                             out.append(V("transition %s -> %s appended a snapshot with variables %s, it publishes %s" % (
                                 op["task"], dst, sorted(got), sorted(names)), i))
                         for n, e in tr["publish"]:
+                            if "lit" in e and n in st["contexts"][cidx] and n not in ("d",):
+                                want = render.undict(e["lit"])
+                                if json.dumps(st["contexts"][cidx][n], sort_keys=True) != json.dumps(want, sort_keys=True):
+                                    out.append(V("transition %s -> %s publishes %s = %r, the snapshot it appended holds %r" % (
+                                        op["task"], dst, n, want, st["contexts"][cidx][n]), i))
                             if e == {"ctx": "y"} and "y" in vars_lit and "y" not in republished and n in st["contexts"][cidx]:
                                 if json.dumps(st["contexts"][cidx][n]) != json.dumps(render.undict(vars_lit["y"])):
                                     out.append(V("published %s is %r, the variable it references is %r" % (
